@@ -32,6 +32,7 @@ ASSUMPTIONS = [
 ]
 
 PROFILES = ["a", "b", "c", "d"]
+ALL_PROFILES = PROFILES + ["e", "f"]      # the last two only occur in hierarchy_specs
 
 
 def _rule_text(rule: dict, names_so_far: list) -> str:
@@ -54,7 +55,7 @@ def _build_ruleset(spec: dict, strip_superiors: bool):
         text += _rule_text(rule, names)
         names.append(rule["name"])
     try:
-        parsed = rule_parser.Parser(text, set(PROFILES), {"cat"}).rules
+        parsed = rule_parser.Parser(text, set(ALL_PROFILES), {"cat"}).rules
     except Exception as err:  # pylint: disable=broad-except
         raise Violation("wellformed_rule_rejected", {"text": text, "exception": type(err).__name__,
                                                      "message": str(err)[:200]}) from err
@@ -74,7 +75,7 @@ def _build_ruleset(spec: dict, strip_superiors: bool):
             return found
         return DynamicProfile(profile, "desc", find)
 
-    dynamic = {profile: make_profile(profile) for profile in PROFILES}
+    dynamic = {profile: make_profile(profile) for profile in ALL_PROFILES}
     return Ruleset(tuple(parsed), {}, "", {"cat"}, "verif", dynamic_profiles=dynamic, equivalence_groups=[])
 
 
@@ -344,6 +345,9 @@ def check_detection(spec: dict) -> dict:
             if covered:
                 nontrivial = True
                 classes.append("superior_covers")
+                direct = [q["core"] for q in raw if q["product"] in by_name[proto["product"]]["superiors"]]
+                if not any(all(ring.contains(core, genes[g]["loc"]) for g in inside) for core in direct):
+                    classes.append("superior_covers_only_transitively")
                 if survivors:
                     raise Violation("inferior_not_dropped", {"protocluster": proto, "superior_cores": superior_cores})
             elif not shares:
@@ -444,6 +448,52 @@ def superior_specs(draw) -> dict:
 
 
 @st.composite
+def hierarchy_specs(draw) -> dict:
+    """ focused on transitive SUPERIORS: 4-6 single-profile rules forming a random hierarchy (each rule names 0-3
+        earlier rules, in any order, so diamonds and rules whose parents have different ancestors are common), and
+        far-apart groups of 1-2 genes in which every gene carries the same 1-3 profiles, so that 'covered by a
+        (transitive) superior' and 'no superior anywhere near' are both frequent and asserted """
+    layered = draw(st.booleans())
+    count = draw(st.integers(4, 6))
+    layer_of = [0, 0, 1, 1, 2, 2][:count] if layered else list(range(count))
+    rules_spec = []
+    for index in range(count):
+        sups: list = []
+        earlier = [f"r{i}" for i in range(index) if layer_of[i] < layer_of[index]]
+        if layered and earlier:
+            # parents from the layer directly above (so that two parents often have different ancestors), any order
+            above = [f"r{i}" for i in range(index) if layer_of[i] == layer_of[index] - 1]
+            sups = draw(st.lists(st.sampled_from(above), min_size=1, max_size=2, unique=True))
+        elif earlier:
+            size = min(draw(st.sampled_from([0, 1, 1, 2, 2, 3])), len(earlier))
+            sups = draw(st.lists(st.sampled_from(earlier), min_size=size, max_size=size, unique=True))
+        rules_spec.append({"name": f"r{index}", "conditions": ["id", ALL_PROFILES[index]], "superiors": sups,
+                           "extenders": None, "cutoff": 5, "neighbourhood": draw(st.sampled_from([0, 3]))})
+    closure: dict = {}
+    for rule in rules_spec:
+        closure[rule["name"]] = set(rule["superiors"]).union(*(closure[p] for p in rule["superiors"]))
+    length = 1200
+    circular = draw(st.booleans())
+    genes, hits = [], {}
+    for group in range(draw(st.integers(1, 6))):
+        base = 40 + group * 180
+        profiles = draw(st.lists(st.sampled_from(ALL_PROFILES[:count]), min_size=1, max_size=3, unique=True))
+        low = draw(st.sampled_from(rules_spec))
+        if closure[low["name"]] and draw(st.booleans()):
+            # an inferior rule and exactly one of its (often only transitive) superiors
+            ancestor = draw(st.sampled_from(sorted(closure[low["name"]])))
+            profiles = [low["conditions"][1], ALL_PROFILES[int(ancestor[1:])]]
+        for member in range(draw(st.integers(1, 2))):
+            name = f"g{len(genes)}"
+            start = base + member * 12
+            genes.append({"name": name, "loc": {"parts": [[start, start + 9]], "strand": draw(st.sampled_from([1, -1])),
+                                                "kind": "simple"}})
+            chosen = profiles if draw(st.integers(0, 3)) else draw(st.lists(st.sampled_from(profiles), unique=True))
+            hits[name] = {p: 100 for p in chosen}
+    return {"L": length, "circular": circular, "genes": genes, "hits": hits, "rules": rules_spec}
+
+
+@st.composite
 def extender_specs(draw) -> dict:
     """ focused on EXTENDERS: pairwise disjoint genes on a (mostly circular) record, an anchor group placed anywhere
         (often right after or across the origin) and chains of extender-satisfying genes on both sides whose gaps are
@@ -451,7 +501,7 @@ def extender_specs(draw) -> dict:
     length = draw(st.sampled_from([120, 300, 900]))
     circular = draw(st.integers(0, 4)) > 0
     cutoff = draw(st.sampled_from([4, 9, 20]))
-    gene_size = draw(st.sampled_from([3, 6]))
+    gene_size = draw(st.sampled_from([3, 6, 7, 7]))     # genes of 7 bases may have two exons around a 1-base intron
     count = draw(st.integers(4, 10))
     gaps = [draw(st.sampled_from([0, 1, cutoff - 1, cutoff - 1, cutoff, cutoff + 1, 2 * cutoff + 3])) for _ in range(count)]
     total = sum(gaps) + count * gene_size
@@ -488,6 +538,11 @@ def extender_specs(draw) -> dict:
             if strand == -1:
                 parts.reverse()
             loc = {"parts": parts, "strand": strand, "kind": "span"}
+        elif gene_size == 7 and draw(st.booleans()):
+            parts = [[start, start + 3], [start + 4, end]]
+            if strand == -1:
+                parts.reverse()
+            loc = {"parts": parts, "strand": strand, "kind": "multi"}
         else:
             loc = {"parts": [[start, end]], "strand": strand, "kind": "simple"}
         name = f"g{index}"
@@ -536,3 +591,4 @@ def run(ctx) -> None:
     ctx.hyp("detection", detection_specs(), max_examples=ctx.pick(2500, 40000), shards=ctx.pick(8, 16))
     ctx.hyp("detection", extender_specs(), max_examples=ctx.pick(1200, 15000), shards=ctx.pick(8, 16))
     ctx.hyp("detection", superior_specs(), max_examples=ctx.pick(1500, 20000), shards=ctx.pick(8, 16))
+    ctx.hyp("detection", hierarchy_specs(), max_examples=ctx.pick(1200, 15000), shards=ctx.pick(8, 16))
